@@ -54,14 +54,16 @@ class Scenario:
                 for v in obs:
                     e = e + coef() * v + coef() * v * v
                 sm[r] = e
+            # adversarial insertion orders: expressions in shuffled order, noise in REVERSE sorted reading-name order
             self.sensor_models[sname] = sm
-            self.sensor_noises[sname] = {r: float(rng.choice([0.5, 1.5, 2.0, 0.25])) + 0.125 * i for i, r in enumerate(rnames)}
+            self.sensor_noises[sname] = {r: float(rng.choice([0.5, 1.5, 2.0, 0.25])) + 0.125 * i for i, r in enumerate(sorted(rnames, reverse=True))}
         self.process_noise = {u: float(rng.choice([0.5, 1.25, 2.0])) + 0.25 * i for i, u in enumerate(self.control)}
         self.calibration_map = {cs: float(Fraction(rng.randint(-6, 6), 4)) for cs in self.calibration}
 
     def ui_model(self, ui, container="set"):
         rng = random.Random(self.rng.random())
-        mk = (lambda xs: set(xs)) if container == "set" else (lambda xs: rng.sample(list(xs), len(xs)))
+        # list containers are declared in REVERSE name order (the opposite of the library's internal layout)
+        mk = (lambda xs: set(xs)) if container == "set" else (lambda xs: sorted(xs, key=lambda s: s.name, reverse=True))
         items = list(self.state_model.items())
         rng.shuffle(items)
         return ui.Model(dt=self.dt, state=mk(self.state), control=mk(self.control), calibration=mk(self.calibration), state_model=dict(items))
